@@ -1,5 +1,5 @@
 """C11 - SAUCE metadata round-trips and is cut off the content exactly."""
-import os, json, glob
+import os, json, glob, re
 import vlib
 from vlib import Check
 
@@ -19,7 +19,7 @@ def key(v, ev):
         cm = "comments" if info.get("n", 0) else "nocomments"
         return f"PictureEqual:{w}:{info.get('tailkind')}:{cm}"  # writer x kind of content tail x comment block present
     if pred in ("SaveFails", "LoadFails"):
-        return f"{pred}:{w}:{info.get('site')}"
+        return f"{pred}:{w}:" + re.sub(r"[^A-Za-z0-9_.:#@/()-]", "?", str(info.get("site")))[:90]
     return str(pred)
 
 
